@@ -227,16 +227,18 @@ class Monitor:
             self.fails.append({"cycle": t, "sig": sig, "what": what})
 
     def run(self, irows, orows):
+        """C37 part: acceptance, queue, LGOOD/LCRD/LBAD bookkeeping.  C38 part: every cycle with
+        (last_enable & ~enable) | usb_reset starts a new *epoch*: buffered headers are dropped, the receive
+        state is fresh, and the first five link commands after the link is up again must be LGOOD_(n-1),
+        LCRD_A..D (checked when the environment of the theorem holds for that epoch)."""
         n = len(irows)
         # ---- framing of the sink stream
-        exp_bad = [0] * (n + 3)       # bad_packet_received expected at cycle
-        exp_new = [0] * (n + 3)       # packet_received expected at cycle
-        exp_rec = [0] * (n + 3)       # recovery_required expected at cycle
+        exp_new = [0] * (n + 3)       # header whose packet_received strobe is due at this cycle
         accept_at = {}                # cycle of the buffer write -> header words
         bad_at = {}
         collecting = None
         skip = -1
-        hdr_end = []
+        pending_check = {}
         for t, r in enumerate(irows):
             if t == skip:
                 continue
@@ -246,30 +248,33 @@ class Monitor:
             elif r[I_SV]:
                 collecting.append(r[I_SD])
                 if len(collecting) == 4:
-                    hdr_end.append((t, tuple(collecting)))
+                    pending_check[t + 1] = tuple(collecting)
                     collecting = None
                     skip = t + 1
         # ---- replay of the link-level bookkeeping the property defines
         ignore = False
         expected = 0
-        hi = 0
         accepted = []            # (header words, cycle from which the queue must show it)
         popped = 0
+        pop_base = 0             # value of `popped` at the start of the epoch
         lgoods, lcrds, lbads = 0, 0, 0
-        bad_events = []          # cycles of corrupted, non-ignored headers
-        lbad_done_after = []
+        adv = 7                  # sequence number the epoch's first LGOOD must carry
+        ack_base = 0             # index into `accepted` of the first header of this epoch
+        bad_events = []          # cycles of corrupted, non-ignored headers (this epoch)
+        all_bad_events = []
+        total_lbads = 0
         env_ok = True
+        lc_ok = True
         cmd_hdr = False
         counts = {"rrq": 0, "ka": 0, "rej": 0, U.LRTY: 0, U.LUP: 0, U.LXU: 0}
-        ready_cycles = 0
-        ready_at = []
-        pending_check = {}       # cycle -> (kind, words)
-        for t0, words in hdr_end:
-            pending_check[t0 + 1] = words
         maxfill = 0
+        last_enable = 0
+        # epoch (C38) state
+        epoch = None             # None = initial epoch after power-on reset (checked the same way)
+        ep = {"start": -1, "t_en": None, "checked": True, "cmds": [], "adv": 7, "rrq": False, "kind": "power-on",
+              "phase": "idle"}
         for t in range(n):
             i, o = irows[t], orows[t]
-            ready_at.append(ready_cycles)
             # -- strobes of the raw receiver
             want_bad = want_new = want_rec = 0
             if t in pending_check:
@@ -301,22 +306,31 @@ class Monitor:
             if o[O_REC] != want_rec:
                 self.fail(t, "recovery-strobe", "recovery_required=%d, expected %d" % (o[O_REC], want_rec))
             # -- the queue offered to the protocol layer
-            visible = sum(1 for a in accepted if a[1] <= t) - popped
+            visible = sum(1 for a in accepted[popped:] if a[1] <= t)
             if env_ok:
                 if o[O_QV] != (1 if visible > 0 else 0):
-                    self.fail(t, "queue-valid", "queue.valid=%d with %d accepted, undelivered header(s)" % (o[O_QV], visible))
+                    self.fail(t, "queue-valid" if ep["start"] < 0 or t > ep["start"] + 1 else "reenable-stale-buffers",
+                              "queue.valid=%d with %d accepted, undelivered header(s)" % (o[O_QV], visible))
                 elif visible > 0:
                     got = (o[O_Q0], o[O_Q1], o[O_Q2], o[O_Q3])
                     if got != accepted[popped][0]:
                         self.fail(t, "queue-order", "queue offers %s, the oldest accepted undelivered header is %s"
                                   % (["%08x" % x for x in got], ["%08x" % x for x in accepted[popped][0]]))
-            if o[O_QV] and i[I_QR]:
+            did_pop = bool(o[O_QV] and i[I_QR])
+            if did_pop:
                 popped += 1
                 self.tags.add("pop")
             maxfill = max(maxfill, len(accepted) - popped)
+            # -- the epoch's enable point
+            reset_ev = bool((last_enable and not i[I_EN]) or i[I_RST])
+            if ep["t_en"] is None and i[I_EN] and not reset_ev and t > ep["start"]:
+                ep["t_en"] = t
+                if o[O_SV]:
+                    ep["checked"] = False          # the command in flight at link-down has not drained
+                    lc_ok = False
+                    self.tags.add("epoch:generator-busy-at-enable")
             # -- link commands on the source
             if o[O_SV] and i[I_RDY]:
-                ready_cycles += 1
                 if not cmd_hdr:
                     if not (o[O_SD] == U.LCSTART and o[O_SC] == 15):
                         self.fail(t, "lc-framing", "link command does not start with SLC SLC SLC EPF")
@@ -328,15 +342,36 @@ class Monitor:
                         self.fail(t, "lc-sent-strobe", "link_command_sent not pulsed with the command word")
                     if d is None:
                         self.fail(t, "lc-word", "malformed link command word %08x" % o[O_SD])
+                    elif ep["t_en"] is None:
+                        self.tags.add("lc-while-down:" + U.LC_NAMES.get(d[0], str(d[0])))   # stale command draining
                     else:
                         cmd, sub = d
                         self.tags.add("lc:" + U.LC_NAMES.get(cmd, str(cmd)))
-                        if cmd == U.LGOOD:
-                            if sub != (lgoods + 7) % 8:
+                        # C38: the first five commands of the epoch
+                        if ep["checked"] and len(ep["cmds"]) < 5:
+                            k = len(ep["cmds"])
+                            want = (U.LGOOD, ep["adv"]) if k == 0 else (U.LCRD, k - 1)
+                            if ep["rrq"]:
+                                ep["checked"] = False
+                                self.tags.add("epoch:retry-request-during-advertisement")
+                            elif (cmd, sub) != want:
+                                self.fail(t, "reenable-advert" if ep["start"] >= 0 else "initial-advert",
+                                          "command #%d after link %s at cycle %d (%s, during %s) is %s_%d, expected %s_%d"
+                                          % (k + 1, "re-entry" if ep["start"] >= 0 else "bring-up", ep["start"], ep["kind"],
+                                             ep["phase"], U.LC_NAMES.get(cmd, cmd), sub, U.LC_NAMES[want[0]], want[1]))
+                                ep["checked"] = False
+                            else:
+                                ep["cmds"].append((cmd, sub))
+                                if len(ep["cmds"]) == 5 and ep["start"] >= 0:
+                                    self.tags.add("epoch-ok:%s:%s" % (ep["kind"], ep["phase"]))
+                        if not lc_ok:
+                            pass
+                        elif cmd == U.LGOOD:
+                            if sub != (adv + lgoods) % 8:
                                 self.fail(t, "lgood-seq", "LGOOD_%d sent, the next header to acknowledge is %d"
-                                          % (sub, (lgoods + 7) % 8))
+                                          % (sub, (adv + lgoods) % 8))
                             if env_ok and lgoods >= 1:
-                                k = lgoods - 1
+                                k = ack_base + lgoods - 1
                                 if k >= len(accepted) or accepted[k][1] > t:
                                     self.fail(t, "lgood-unreceived", "LGOOD_%d sent before a header with that number was accepted" % sub)
                                 elif (accepted[k][0][3] >> 16) & 7 != sub:
@@ -347,10 +382,12 @@ class Monitor:
                             if sub != lcrds % 4:
                                 self.fail(t, "lcrd-order", "LCRD_%s sent, next in A-B-C-D order is %s" % ("ABCD"[sub % 4], "ABCD"[lcrds % 4]))
                             lcrds += 1
-                            if env_ok and lcrds > 4 + popped - (1 if (o[O_QV] and i[I_QR]) else 0):
-                                self.fail(t, "credit-overrun", "%d credits advertised with only %d buffers freed" % (lcrds, popped))
+                            if env_ok and lcrds > 4 + (popped - pop_base) - (1 if did_pop else 0):
+                                self.fail(t, "credit-overrun", "%d credits advertised with only %d buffers freed"
+                                          % (lcrds, popped - pop_base))
                         elif cmd == U.LBAD:
                             lbads += 1
+                            total_lbads += 1
                             if lbads > len(bad_events):
                                 self.fail(t, "lbad-spurious", "LBAD without a corrupted header")
                         elif cmd in (U.LRTY, U.LUP, U.LXU):
@@ -365,24 +402,61 @@ class Monitor:
             counts["rrq"] += i[I_RRQ]
             counts["ka"] += i[I_KA]
             counts["rej"] += i[I_REJ]
+            if i[I_RRQ] and len(ep["cmds"]) < 5:
+                ep["rrq"] = True
             # -- register updates effective next cycle
             if t in accept_at:
-                if len(accepted) - popped >= 4 or len(accepted) - max(lgoods - 1, 0) >= 4:
+                if len(accepted) - popped >= 4 or (len(accepted) - ack_base) - max(lgoods - 1, 0) >= 4:
                     env_ok = False          # the partner overran our buffers: outside the property's environment
                     self.tags.add("env-broken")
+                if len(ep["cmds"]) < 2:
+                    ep["checked"] = False   # a header before the first credit: outside the environment of C38
                 accepted.append((accept_at[t], t + 1))
                 expected = (expected + 1) % 8
                 self.tags.add("accept")
+            if t in bad_at:
+                bad_events.append(t)
+                all_bad_events.append(t)
             if i[I_RRX]:
                 if ignore:
                     self.tags.add("retry-ends-ignore")
                 ignore = False
             elif t in bad_at:
                 ignore = True
-                bad_events.append(t)
-        # ---- bounded liveness of the LBAD (needs the generator to be granted the link)
+            if reset_ev:
+                # the reset-on-disable block: fresh receive state, buffered headers dropped
+                phase = "idle" if not o[O_SV] else ("header" if o[O_SC] == 15 else "command")
+                kind = ("usb_reset" if i[I_RST] else "") + ("+" if i[I_RST] and last_enable and not i[I_EN] else "") + \
+                       ("disable" if (last_enable and not i[I_EN]) else "")
+                if t in accept_at:
+                    expected = (expected - 1) % 8      # written in the cycle of the reset: dropped, not counted
+                if i[I_RST]:
+                    expected = 0
+                checked = not (t in accept_at or t in pending_check or (t + 1) in pending_check)
+                if not checked:
+                    self.tags.add("epoch:header-during-link-down")
+                ignore = False
+                popped = len(accepted)
+                pop_base = popped
+                ack_base = len(accepted)
+                lgoods = lcrds = lbads = 0
+                bad_events = []
+                adv = (expected + 7) % 8
+                env_ok = True
+                lc_ok = t not in pending_check   # a header checked against the pre-reset sequence number in this
+                #                                  very cycle is outside the environment (RxQuiet) of C38
+                counts = {"rrq": 0, "ka": 0, "rej": counts["rej"] - counts[U.LXU], U.LRTY: 0, U.LUP: 0, U.LXU: 0}
+                if ep["start"] != t - 1 or ep["t_en"] is not None:
+                    self.tags.add("reset:%s:%s" % (kind, phase))
+                    ep = {"start": t, "t_en": None, "checked": checked, "cmds": [], "adv": adv, "rrq": False,
+                          "kind": kind, "phase": phase}
+                else:          # the reset condition persists (usb_reset held): same epoch
+                    ep["start"] = t
+                    ep["adv"] = adv
+                    ep["checked"] = ep["checked"] and checked
+            last_enable = i[I_EN]
         self.tags.add("maxfill=%d" % maxfill)
-        return ready_at, bad_events, lbads
+        return None, all_bad_events, total_lbads
 
 
 def lbad_liveness(mon, irows, orows, bad_events, lbads, ready_need=150):
